@@ -691,11 +691,13 @@ func (obj *SparseIntMatrix) JointIterator(b ConstMatrix) MatrixJointIterator {
 }
 func (obj *SparseIntMatrix) ITERATOR() *SparseIntMatrixIterator {
   r := SparseIntMatrixIterator{*obj.values.ITERATOR(), obj}
+  r.skip()
   return &r
 }
 func (obj *SparseIntMatrix) ITERATOR_FROM(i, j int) *SparseIntMatrixIterator {
   k := obj.index(i, j)
   r := SparseIntMatrixIterator{*obj.values.ITERATOR_FROM(k), obj}
+  r.skip()
   return &r
 }
 func (obj *SparseIntMatrix) JOINT_ITERATOR(b ConstMatrix) *SparseIntMatrixJointIterator {
@@ -716,6 +718,20 @@ type SparseIntMatrixIterator struct {
 }
 func (obj *SparseIntMatrixIterator) Index() (int, int) {
   return obj.m.ij(obj.SparseIntVectorIterator.Index())
+}
+func (obj *SparseIntMatrixIterator) Next() {
+  obj.SparseIntVectorIterator.Next()
+  obj.skip()
+}
+// skip the entries of the underlying storage that lie outside the matrix
+// (a matrix obtained with Slice() shares the storage of its parent)
+func (obj *SparseIntMatrixIterator) skip() {
+  for obj.SparseIntVectorIterator.Ok() {
+    if i, j := obj.Index(); i >= 0 && i < obj.m.rows && j >= 0 && j < obj.m.cols {
+      break
+    }
+    obj.SparseIntVectorIterator.Next()
+  }
 }
 func (obj *SparseIntMatrixIterator) Clone() *SparseIntMatrixIterator {
   return &SparseIntMatrixIterator{*obj.SparseIntVectorIterator.Clone(), obj.m}
